@@ -252,7 +252,7 @@ impl<P: Payload> World<P> {
             }
             Rel::FirstChild => m.n[o].children.first().copied().into_iter().collect(),
             Rel::LastChild => m.n[o].children.last().copied().into_iter().collect(),
-            Rel::Child => m.n[o].children.clone(),
+            Rel::Child => m.n[o].children.to_vec(),
             Rel::Descendant => {
                 let mut v = m.preorder(o);
                 v.remove(0);
@@ -289,6 +289,14 @@ impl<P: Payload> World<P> {
             Rel::ChainMate => {
                 let r = m.root_of(o);
                 m.siblings(r).iter().copied().filter(|&c| c != r && c != o).collect()
+            }
+            Rel::Root => {
+                let r = m.root_of(o);
+                if r == o {
+                    vec![]
+                } else {
+                    vec![r]
+                }
             }
         }
     }
@@ -454,61 +462,94 @@ impl<P: Payload> World<P> {
                 break;
             }
         }
-        // (c) children of p = exactly the chain first..last
+        // (c) children of p = exactly the chain first..last   (O(n): count, then walk)
+        let mut cnt = vec![0usize; nslots];
+        if !bad {
+            for &c in &live {
+                if let Some(p) = lk(c, 0) {
+                    cnt[p] += 1;
+                }
+            }
+        }
         for &p in &live {
             if bad {
                 break;
             }
-            let named: Vec<usize> = live.iter().copied().filter(|&c| lk(c, 0) == Some(p)).collect();
-            let mut walk = Vec::new();
+            let mut steps = 0usize;
+            let mut last = None;
             let mut cur = lk(p, 3);
+            let mut foreign = None;
             while let Some(c) = cur {
-                walk.push(c);
-                if walk.len() > named.len() + 1 {
+                steps += 1;
+                if lk(c, 0) != Some(p) {
+                    foreign = Some(c);
+                    break;
+                }
+                last = Some(c);
+                if steps > cnt[p] {
                     break;
                 }
                 cur = lk(c, 2);
             }
-            let mut sorted = walk.clone();
-            sorted.sort();
-            let ok = sorted == named
-                && lk(p, 4) == walk.last().copied()
-                && walk.first().map_or(true, |&f| lk(f, 1).is_none())
-                && walk.last().map_or(true, |&l| lk(l, 2).is_none());
+            let ok = foreign.is_none()
+                && steps == cnt[p]
+                && lk(p, 4) == last
+                && lk(p, 3).map_or(true, |f| lk(f, 1).is_none())
+                && last.map_or(true, |l| lk(l, 2).is_none());
             if !ok {
-                let props: &[&'static str] = if walk.len() > named.len() { &["C01", "C02"] } else { &["C01"] };
+                let props: &[&'static str] = if steps > cnt[p] { &["C01", "C02"] } else { &["C01"] };
                 out.push(Failure::new(
                     props,
                     format!("{opname}/wf/child-chain"),
-                    format!("parent slot {p}: nodes naming it as parent = {:?}, chain from first_child = {:?}, last_child = {:?}", named, walk, lk(p, 4)),
+                    format!(
+                        "parent slot {p}: {} live nodes name it as parent; the chain from first_child {:?} has {}{} nodes{}, ends at {:?}; last_child = {:?}",
+                        cnt[p],
+                        lk(p, 3),
+                        if steps > cnt[p] { "more than " } else { "" },
+                        steps.min(cnt[p] + 1),
+                        foreign.map_or(String::new(), |f| format!(" and reaches slot {f} which names another parent")),
+                        last,
+                        lk(p, 4)
+                    ),
                 ));
                 bad = true;
                 break;
             }
         }
-        // C02: parent walks and sibling walks terminate
-        let nl = live.len();
-        for &x in &live {
-            let mut cur = lk(x, 0);
-            let mut steps = 0;
-            while let Some(p) = cur {
-                steps += 1;
-                if steps >= nl.max(1) + 1 || p == x {
-                    out.push(Failure::new(&["C02", "C01"], format!("{opname}/wf/parent-cycle"), format!("following parent links from slot {x} does not reach a parentless node within {nl} steps")));
+        // C02: parent walks and sibling walks terminate (O(n): three-colour walk over each link kind)
+        let _ = bad;
+        for (dir, what) in [(0usize, "parent-cycle"), (2usize, "sibling-cycle"), (1usize, "sibling-cycle")] {
+            let mut state = vec![0u8; nslots]; // 0 unvisited, 1 on the current walk, 2 known to terminate
+            for &x in &live {
+                if state[x] != 0 {
+                    continue;
+                }
+                let mut path = Vec::new();
+                let mut cur = Some(x);
+                let mut cyc = false;
+                while let Some(y) = cur {
+                    if state[y] == 1 {
+                        cyc = true;
+                        break;
+                    }
+                    if state[y] == 2 {
+                        break;
+                    }
+                    state[y] = 1;
+                    path.push(y);
+                    cur = lk(y, dir);
+                }
+                if cyc {
+                    let msg = if dir == 0 {
+                        format!("following parent links from slot {x} never reaches a parentless node (cycle)")
+                    } else {
+                        format!("following {} links from slot {x} does not end (cycle)", LINK_NAMES[dir])
+                    };
+                    out.push(Failure::new(&["C02", "C01"], format!("{opname}/wf/{what}"), msg));
                     return;
                 }
-                cur = lk(p, 0);
-            }
-            for dir in [1usize, 2usize] {
-                let mut cur = lk(x, dir);
-                let mut steps = 0;
-                while let Some(y) = cur {
-                    steps += 1;
-                    if steps > nl || y == x {
-                        out.push(Failure::new(&["C02", "C01"], format!("{opname}/wf/sibling-cycle"), format!("following {} links from slot {x} does not end", LINK_NAMES[dir])));
-                        return;
-                    }
-                    cur = lk(y, dir);
+                for y in path {
+                    state[y] = 2;
                 }
             }
         }
@@ -650,11 +691,11 @@ impl<P: Payload> World<P> {
         for s in 0..n {
             if !self.m.n[s].live {
                 if self.m.n[s].free == FreeState::NotFree {
-                    self.m.n[s].free = FreeState::Free;
+                    self.m.set_free(s, FreeState::Free);
                 }
                 continue;
             }
-            self.m.n[s].free = FreeState::NotFree;
+            self.m.set_free(s, FreeState::NotFree);
             self.m.n[s].parent = rows[s].links[0].map(slot_of);
             let mut kids = Vec::new();
             let mut cur = rows[s].links[3].map(slot_of);
@@ -665,7 +706,7 @@ impl<P: Payload> World<P> {
                 }
                 cur = rows[c].links[2].map(slot_of);
             }
-            self.m.n[s].children = kids;
+            self.m.n[s].children = kids.into();
         }
         for s in 0..n {
             if self.m.n[s].live && self.m.n[s].parent.is_none() && rows[s].links[1].is_none() {
@@ -743,6 +784,8 @@ impl<P: Payload> World<P> {
             Op::RemoveSubtree { x } => Op::RemoveSubtree { x: slot(self.resolve(*x, None)?) },
             Op::Set { x, v, via } => Op::Set { x: slot(self.resolve(*x, None)?), v: *v, via: *via },
             Op::Churn { x, cycles } => Op::Churn { x: slot(self.resolve(*x, None)?), cycles: *cycles },
+            Op::ChurnTo { x, limit, left } => Op::ChurnTo { x: slot(self.resolve(*x, None)?), limit: *limit, left: *left },
+            Op::Grow { under, n, shape } => Op::Grow { under: slot(self.resolve(*under, None)?), n: *n, shape: *shape },
             other => other.clone(),
         })
     }
@@ -790,6 +833,27 @@ impl<P: Payload> World<P> {
             Op::Churn { x, cycles } => match a(x) {
                 Some(a) if a.live => self.do_churn(a, *cycles, cfg),
                 _ => skip("churn"),
+            },
+            Op::ChurnTo { x, limit, left } => match a(x) {
+                Some(a) if a.live => {
+                    // a lone root cycles in place; otherwise do_churn cycles a fresh leaf starting at generation 0
+                    let lone = self.m.n[a.slot].children.is_empty() && self.m.n[a.slot].parent.is_none() && self.m.siblings(a.slot).len() == 1;
+                    let have = if lone { self.m.n[a.slot].recycles } else { 0 };
+                    let want = limit.saturating_sub(*left as u32);
+                    if want > have && want - have <= 70_000 {
+                        let mut o = self.do_churn(a, want - have, cfg);
+                        o.class = format!("churn_to/{limit}-{left}");
+                        o.desc = format!("churn_to({}, recycles = {limit} - {left})", nid(a.id));
+                        o
+                    } else {
+                        skip("churn_to")
+                    }
+                }
+                _ => skip("churn_to"),
+            },
+            Op::Grow { under, n, shape } => match a(under) {
+                Some(a) if a.live => self.do_grow(a, *n, *shape, cfg),
+                _ => skip("grow"),
             },
             Op::Probe { .. } | Op::Roundtrip => skip(op.kind_name()), // handled by the engine
         }
@@ -939,7 +1003,7 @@ impl<P: Payload> World<P> {
         } else {
             // arena grew although `maybe` slots existed: those are retired now
             for s in &maybe {
-                self.m.n[*s].free = FreeState::Retired;
+                self.m.set_free(*s, FreeState::Retired);
             }
         }
         if slot < self.m.n.len() && self.m.n[slot].free == FreeState::Retired {
@@ -1504,9 +1568,9 @@ impl<P: Payload> World<P> {
                 let serial = self.m.n[old.slot].serial;
                 self.m.remove(old.slot);
                 self.check_drops("churn", vec![serial], &mut o.failures);
-                let r = catch_unwind(AssertUnwindSafe(|| old.id.is_removed(&self.arena)));
-                if r.ok() != Some(true) {
-                    o.failures.push(Failure::new(&["C06"], "churn/is-removed-false", format!("{:?}.is_removed() is not true right after its removal (cycle {c})", old.id)));
+                let r = catch_unwind(AssertUnwindSafe(|| (old.id.is_removed(&self.arena), self.arena.get(old.id).map(|n| n.is_removed()))));
+                if r.ok() != Some((true, Some(true))) {
+                    o.failures.push(Failure::new(&["C06", "C12", "C04"], "churn/is-removed-false", format!("{} was removed (cycle {c}, {} recycles of its slot) but NodeId::is_removed / Node::is_removed do not both say so", idg(old.id), self.m.n[old.slot].recycles)));
                 }
                 if !o.failures.is_empty() {
                     return o;
@@ -1557,11 +1621,148 @@ impl<P: Payload> World<P> {
         o
     }
 
+    /// Add `n` nodes with light per-node checks (slot choice, id uniqueness) and one full check at
+    /// the end.  Reaches arenas far larger than step-by-step histories can (index ranges beyond
+    /// u8 / u16, long sibling lists, deep chains).
+    fn do_grow(&mut self, under: Arg, n: u32, shape: u8, cfg: &StepCfg) -> StepOut {
+        let mut o = StepOut::default();
+        let shape = shape % 7;
+        let n = if shape == 2 { n.min(1500) } else { n.min(80_000) } as usize;
+        o.class = format!("grow/{}-{}", ["wide", "deep", "top-chain", "bushy", "comb", "deep-tail", "wide-late-middle"][shape as usize], if n >= 60_000 { "xl" } else if n >= 200 { "l" } else if n >= 20 { "m" } else { "s" });
+        o.desc = format!("grow({}, {n}, shape {shape})", nid(under.id));
+        if self.m.live_count() + n > 90_000 {
+            return skip("grow");
+        }
+        // recycle what is free first (ordinary allocation path with its slot-choice oracle)
+        let mut guard = 0u32;
+        let limit = (self.m.n.len() + 2) as u32;
+        while self.m.nfree + self.m.nmaybe > 0 && guard < limit {
+            let s = self.do_new_light(guard, cfg);
+            if !s.failures.is_empty() {
+                o.failures = s.failures;
+                return o;
+            }
+            guard += 1;
+        }
+        if self.m.nfree + self.m.nmaybe > 0 {
+            return skip("grow");
+        }
+        let mut created: Vec<usize> = Vec::with_capacity(n);
+        let mut last_root = self.m.root_of(under.slot);
+        for i in 0..n {
+            let parent_slot = match shape {
+                0 | 6 => Some(under.slot),
+                1 => Some(*created.last().unwrap_or(&under.slot)),
+                2 => None,
+                3 => Some(if i < 3 { under.slot } else { created[i / 3] }),
+                // comb: even i = spine node below the previous spine node, odd i = leaf sibling after it
+                4 => Some(if i < 2 { under.slot } else { created[(i - 2) / 2 * 2] }),
+                // deep chain with a branching tail: the last four nodes are three children (+ one grandchild)
+                _ => {
+                    let tail = n.saturating_sub(4);
+                    Some(if i == 0 {
+                        under.slot
+                    } else if i <= tail {
+                        created[i - 1]
+                    } else if i + 1 == n {
+                        created[n - 2]
+                    } else {
+                        created[tail]
+                    })
+                }
+            };
+            let count0 = self.arena.count();
+            let serial = self.m.next_serial;
+            let v = (i % 97) as u32;
+            let payload = self.mk(serial, v);
+            let arena = &mut self.arena;
+            let via = i % 3;
+            let r = catch_unwind(AssertUnwindSafe(|| match (parent_slot, via) {
+                (Some(p), 0) => self.m.n[p].id.append_value(payload, arena),
+                (Some(p), 1) => {
+                    let id = arena.new_node(payload);
+                    self.m.n[p].id.append(id, arena);
+                    id
+                }
+                (Some(p), _) => {
+                    let id = arena.new_node(payload);
+                    self.m.n[p].id.checked_append(id, arena).expect("append of a new node");
+                    id
+                }
+                (None, _) => {
+                    let id = arena.new_node(payload);
+                    self.m.n[last_root].id.insert_after(id, arena);
+                    id
+                }
+            }));
+            let id = match r {
+                Ok(id) => id,
+                Err(e) => {
+                    o.failures.push(Failure::new(&["C05", "C03", "C07"], "grow/panic-on-possible", format!("adding node #{i} of {} panicked: {}", o.desc, panic_msg(e))));
+                    return o;
+                }
+            };
+            let slot = usize::from(id) - 1;
+            if slot != count0 || self.arena.count() != count0 + 1 {
+                o.failures.push(Failure::new(&["C07"], "grow/slot-choice", format!("no removed slot available: expected new slot {count0} and count {count0}+1, got slot {slot}, count {} (node #{i} of {})", self.arena.count(), o.desc)));
+                return o;
+            }
+            self.record_issue(id, slot, "grow", &mut o.failures);
+            if !o.failures.is_empty() {
+                return o;
+            }
+            self.m.alloc(slot, id, v);
+            match parent_slot {
+                Some(p) => self.m.insert(Kind::Append, p, slot),
+                None => {
+                    self.m.insert(Kind::After, last_root, slot);
+                    last_root = slot;
+                }
+            }
+            created.push(slot);
+        }
+        if shape == 6 && created.len() >= 3 {
+            let anchor = created[created.len() / 7];
+            let serial = self.m.next_serial;
+            let payload = self.mk(serial, 77);
+            let arena = &mut self.arena;
+            let aid = self.m.n[anchor].id;
+            let r = catch_unwind(AssertUnwindSafe(|| {
+                let id = arena.new_node(payload);
+                aid.insert_after(id, arena);
+                id
+            }));
+            match r {
+                Ok(id) => {
+                    let slot = usize::from(id) - 1;
+                    if slot != self.m.n.len() {
+                        o.failures.push(Failure::new(&["C07"], "grow/slot-choice", format!("no removed slot available but slot {slot} was returned")));
+                        return o;
+                    }
+                    self.record_issue(id, slot, "grow", &mut o.failures);
+                    self.m.alloc(slot, id, 77);
+                    self.m.insert(Kind::After, anchor, slot);
+                }
+                Err(e) => {
+                    o.failures.push(Failure::new(&["C05", "C03"], "grow/panic-on-possible", format!("insert_after of a new node panicked: {}", panic_msg(e))));
+                    return o;
+                }
+            }
+        }
+        o.outcome = format!("ok +{n}");
+        o.failures = self.check_state("grow", &["C03", "C07"]);
+        self.check_drops("grow", vec![], &mut o.failures);
+        let key = fnv(&format!("grow|{shape}|{}|{}", n, self.m.n.len()));
+        for p in ["C01", "C03", "C07", "C09", "C11"] {
+            o.nt.push((p, key));
+        }
+        o
+    }
+
     /// allocation with the C06/C07 checks but without table observation
     fn do_new_light(&mut self, v: u32, _cfg: &StepCfg) -> StepOut {
         let mut o = StepOut::default();
-        let free = self.m.free_set();
-        let maybe = self.m.maybe_retired();
+        let (nfree, nmaybe) = (self.m.nfree, self.m.nmaybe);
         let count0 = self.arena.count();
         let serial = self.m.next_serial;
         let payload = self.mk(serial, v);
@@ -1575,22 +1776,29 @@ impl<P: Payload> World<P> {
         };
         let slot = usize::from(id) - 1;
         let count1 = self.arena.count();
-        let ok = if slot < self.m.n.len() && (self.m.n[slot].live || self.m.n[slot].free == FreeState::Retired) {
-            false
-        } else if !free.is_empty() {
-            (free.contains(&slot) || maybe.contains(&slot)) && count1 == count0
-        } else if maybe.contains(&slot) {
-            count1 == count0
-        } else if slot == count0 && count1 == count0 + 1 {
-            for s in &maybe {
-                self.m.n[*s].free = FreeState::Retired;
+        let st = if slot < self.m.n.len() { Some((self.m.n[slot].live, self.m.n[slot].free)) } else { None };
+        let ok = match st {
+            Some((true, _)) | Some((_, FreeState::Retired)) | Some((false, FreeState::NotFree)) => false,
+            Some((false, FreeState::Free)) | Some((false, FreeState::MaybeRetired)) => count1 == count0,
+            None => {
+                if nfree == 0 && slot == count0 && count1 == count0 + 1 {
+                    if nmaybe > 0 {
+                        for s in self.m.maybe_retired() {
+                            self.m.set_free(s, FreeState::Retired);
+                        }
+                    }
+                    true
+                } else {
+                    false
+                }
             }
-            true
-        } else {
-            false
         };
         if !ok {
-            o.failures.push(Failure::new(&["C07"], "new_node/-/slot-choice", format!("new_node returned slot {slot} (count {count0}->{count1}) with free={:?} maybe-retired={:?}", free, maybe)));
+            o.failures.push(Failure::new(
+                &["C07"],
+                "new_node/-/slot-choice",
+                format!("new_node returned slot {slot} (count {count0}->{count1}); removed-and-reusable slots: {:?}, possibly exhausted: {:?}", self.m.free_set().iter().take(12).collect::<Vec<_>>(), self.m.maybe_retired()),
+            ));
             return o;
         }
         self.record_issue(id, slot, "new_node", &mut o.failures);
